@@ -26,6 +26,7 @@ type c13Case struct {
 	InSK     bool    `json:"inside_sk"`
 	OuterSK  bool    `json:"before_sk"`               // the insertion sits in the cleartext outer chain in front of the SK payload
 	CritImpl int     `json:"critical_on_implemented"` // -1 or index of an implemented payload carrying the critical flag
+	CritMask int     `json:"critical_mask,omitempty"` // > 0: bit i set = the i-th insertion carries the critical flag (Critical is ignored); insertion i has type Type+i
 }
 
 func c13Body(n, content int) []byte {
@@ -99,6 +100,40 @@ func runC13(c *engine.Ctx) {
 			types = append(types, uint8(t))
 		}
 	}
+	// runs of adjacent unsupported payloads with mixed critical flags (a walker that follows a run of skipped
+	// payloads in one go must still look at every critical flag)
+	for bi, base := range bases {
+		if bi%3 != 0 && !c.Thorough() {
+			continue
+		}
+		n := len(base.m.P)
+		for _, p := range []int{0, n / 2, n} {
+			for run := 2; run <= 3; run++ {
+				pos := make([]int, run)
+				for i := range pos {
+					pos[i] = p
+				}
+				for mask := 0; mask < 1<<uint(run); mask++ {
+					if !c.Mine() {
+						continue
+					}
+					for _, t := range []uint8{1, 29, 49, 53, 200, 253} { // t, t+1, t+2 are all unsupported type codes
+						for _, l := range []int{0, 1, 4, 9} {
+							cs := c13Case{Name: base.name, M: base.m, Pos: pos, Type: t, Len: l, Content: (l + int(t)) % 3, CritImpl: -1, CritMask: mask}
+							if mask == 0 {
+								cs.CritMask = 0
+							}
+							evalC13(c, cs)
+							if bi%9 == 0 && mask != 0 {
+								cs.InSK = true
+								evalC13(c, cs)
+							}
+						}
+					}
+				}
+			}
+		}
+	}
 	for bi, base := range bases {
 		n := len(base.m.P)
 		var poss [][]int
@@ -164,9 +199,16 @@ func evalC13(c *engine.Ctx, cs c13Case) {
 	var lib ref.Lib
 	ins := ref.Payload{T: cs.Type, Data: c13Body(cs.Len, cs.Content)}
 	pi := 0
+	anyCritical := cs.Critical
 	for i := 0; i <= len(m.P); i++ {
 		for pi < len(cs.Pos) && cs.Pos[pi] == i {
-			if cs.Critical {
+			crit := cs.Critical
+			if cs.CritMask > 0 {
+				crit = cs.CritMask&(1<<uint(pi)) != 0
+				anyCritical = anyCritical || crit
+				ins = ref.Payload{T: cs.Type + uint8(pi), Data: c13Body(cs.Len+pi, cs.Content)}
+			}
+			if crit {
 				lib.Critical |= 1 << uint(len(with.P))
 			}
 			if cs.Resv {
@@ -259,7 +301,10 @@ func evalC13(c *engine.Ctx, cs c13Case) {
 		c.Violate(pinfo.Sig(), desc+": panics: "+pinfo.Value, cs)
 		return
 	}
-	if cs.Critical && len(cs.Pos) > 0 {
+	if cs.CritMask > 0 {
+		posClass = fmt.Sprintf("run-of-%d/mask-%b", len(cs.Pos), cs.CritMask)
+	}
+	if anyCritical && len(cs.Pos) > 0 {
 		if derr == nil {
 			c.Violate("critical-unsupported-accepted/"+where+"/"+posClass, desc+": decoded without error", cs)
 		} else {
